@@ -181,10 +181,11 @@ pub fn record_seqnode(args: &[String]) -> anyhow::Result<()> {
         hist_event(&mut node, &mut out, published)?;
         let ex = node.call(&json!({"op":"transfer_export"}))?;
         if ex["res"] == "ok" {
-            let im = node.call(&json!({"op":"transfer_import","hex":ex["hex"],"ms":30000}))?;
-            writeln!(out, "{}", json!({"event":"import","res":im["res"]}))?;
+            let im = node.call(&json!({"op":"transfer_import","hex":ex["hex"],"ms":30000,"publish_during":5,"tag":format!("{}", seed)}))?;
+            writeln!(out, "{}", json!({"event":"import","res":im["res"],"published_during":im["published_during"]}))?;
             if im["res"] == "ok" {
                 imported = true;
+                published += im["published_during"].as_u64().unwrap_or(0);
                 hist_event(&mut node, &mut out, published)?;
                 for i in 0..3 {
                     if node.call(&json!({"op":"cfg_publish","data_id":cks[i % 3],"value":format!("post-import-{}-{}", seed, i)}))?["res"] == "ok" { published += 1; }
